@@ -300,6 +300,9 @@ class CSym(object):
     def coerce(self, v, ty):
         if isinstance(v, (Ptr, Struct, Undef)) or v is None:
             return v
+        if isinstance(v, T) and v.is_bool:
+            # C: the value of a comparison / logical expression is the int 1 or 0
+            return tm.mk_ite(v, tm.ONE, tm.ZERO)
         if is_int_type(ty) and isinstance(v, T) and not _is_int_term(v):
             return tm.mk_fn("trunc", v)
         return v
@@ -809,6 +812,8 @@ class CSym(object):
                 return False
             if v.is_bool:
                 return v
+            if v.op == "ite" and v.args[1] is tm.ONE and v.args[2] is tm.ZERO:
+                return v.args[0]
             if v.op == "c":
                 return v.args[0] != 0
             return tm.mk_not(tm.mk_eq(v, tm.ZERO))
@@ -1179,6 +1184,9 @@ class CSym(object):
                 continue
             # written by an earlier, completed loop nest: solve the index equation for a single quantified variable
             extra = [q for q in e.qvars if q[0] not in cur_q]
+            if p.arr.private:
+                # a per-thread scratch array (allocated inside the region): every thread filled its own copy, the thread index is not a coordinate
+                extra = [q for q in extra if not (q[0].op == "v" and q[0].args[0].startswith("tid#"))]
             if len(extra) == 1 and e.op == "=":
                 qv, lo, hi, st = extra[0]
                 d = tm.mk_add(e.idx, tm.mk_neg(qv))
@@ -1188,7 +1196,7 @@ class CSym(object):
                     self.side.append(("covered", tm.mk_and(tm.mk_le(lo, sol), tm.mk_lt(sol, hi)), tuple(self.guards), tuple(self.qvars), self.fn_stack[-1]))
                     return tm.substitute(e.val, {qv: sol})
             if p.arr.private or p.arr.origin in ("malloc", "local"):
-                raise CUnsupported("read of scratch array %s written by an earlier loop in an unsupported pattern" % p.arr.name)
+                raise CUnsupported("read of scratch array %s written by an earlier loop in an unsupported pattern (qvars of the write %s, of the read %s, op %s)" % (p.arr.name, [tm.show(q[0]) for q in e.qvars], [tm.show(q) for q in cur_q], e.op))
             raise CUnsupported("read of %s after writes by an earlier loop nest" % p.arr.name)
         return None
 
